@@ -311,6 +311,31 @@ def correspond(ctx, scale):
                              f'{(d2.to(o2.dtype).float() - o2.float()).abs().max().item():g}', dict(name=name, layout=lay, dtype=str(dt)))
             if not ok:
                 fail(key + ':mismatch', f'{name} ({lay}, {mode}): indices_to_codes(indices) != output: {why}', dict(name=name, layout=lay, mode=mode))
+        # frozen-module history (vlib/callzoo.frozen_surgery) on a fresh instance: frozen with requires_grad_(False), another checkpoint loaded while frozen,
+        # parameters written in place, unfrozen again - at every stage forward and decoder agree on the codebook the module has NOW
+        try:
+            has_params = any(True for _ in q.parameters())
+        except Exception:
+            has_params = False
+        if has_params and name not in ('latent-learned',):
+            from vlib import callzoo
+            try:
+                q3 = mk()
+                for stage in callzoo.frozen_surgery(torch, q3, mk):
+                    x3 = torch.randn(*shapes(lay, dim, rng)) + 0.3        # no exactly-zero vectors (D21 is reported above under its own key)
+                    with torch.no_grad():
+                        r3 = q3(x3)
+                        dec3 = q3.indices_to_codes(r3[1])
+                    ev += 1
+                    bump('frozen-history-calls')
+                    if q3.training and name.startswith(('fsq', 'lfq')) and len(ent) > 5 and 'train' not in ent[5]:
+                        continue          # noise dropout: the training output is deliberately not a code
+                    ok3, why3 = close(dec3, r3[0], False)
+                    if not ok3:
+                        fail(f'{name}:frozen-history:{stage}:mismatch', f'{name} ({lay}) at stage "{stage}" of a frozen-module history: indices_to_codes(indices) != output: {why3}', dict(name=name, layout=lay, stage=stage))
+                        break
+            except Exception as ex:
+                fail(f'{name}:frozen-history:exception:{type(ex).__name__}', f'{name} ({lay}): {ex!r}', dict(name=name, layout=lay))
     bad, broken = core.run_cases(ctx, 'c02', HEADER, cases, per_file=40)
     for name, out in broken:
         fail(f'coq-eval:{name}', 'case file did not evaluate: ' + out, {'file': name})
